@@ -1,5 +1,5 @@
 """Property -> rules (DESIGN.md section 4)."""
-from .rules import live
+from .rules import live, walk
 
 SW, GR, OP, BF = 'dsw.spiderweb.', 'dsw.graphized.', 'dsw.operation.', 'dsw.biofilter.'
 
@@ -8,6 +8,12 @@ def c05(ctx):
     fqs = ctx.closure(SW + 'encode', SW + 'decode')
     live.r_live(ctx, fqs, floor=4, what='liveness predicates in encode/decode')
     live.r_alpha(ctx, fqs, floor=2)
+    walk.r_walk(ctx, [SW + 'encode', SW + 'decode'], {SW + 'encode': 2, SW + 'decode': 3})
+    walk.r_deg(ctx, ['encode', 'decode'])
+    walk.r_sel(ctx)
+    walk.r_endian(ctx)
+    walk.r_ahead(ctx)
+    walk.r_vtuse(ctx)
 
 
 PROPERTIES = {
